@@ -26,6 +26,18 @@ def stream_sequence(f, prog=None, depth=0):
         v = (a.get("lhs") or {}).get("v")
         if v and isinstance(k, str) and k.startswith("s:"):
             strvals.setdefault(v, []).append(k[2:])
+    # a std::string / std::string_view local that is given string literals (`separator = "; "`: a class-type assignment)
+    import re as _re2
+    for c_ in f.events("call"):
+        v = (c_.get("recv") or {}).get("v")
+        if c_.get("op") == "=" and v and c_.get("args"):
+            m_ = _re2.match(r'^"((?:[^"\\]|\\.)*)"$', (c_["args"][-1].get("t") or "").strip())
+            if m_:
+                strvals.setdefault(v, []).append(m_.group(1).replace("\\r", "\r").replace("\\n", "\n"))
+    for d in f.events("decl"):
+        m_ = _re2.match(r'^"((?:[^"\\]|\\.)*)"$', ((d.get("init") or {}).get("t") or "").strip())
+        if d.get("var") and m_ and d["var"] not in strvals:
+            strvals.setdefault(d["var"], []).append(m_.group(1))
     # clang numbers CFG blocks from the exit upwards: descending block id, then position in the block, is source order
     for e in sorted(f.events("call"), key=lambda x: (-x.block, x.idx)):
         c = e.get("callee") or ""
